@@ -22,7 +22,7 @@ MC_Mats == IF Cplx THEN {<<<<R(1), Z(0, 1)>>, <<R(0), R(2)>>>>}
            ELSE (IF Small THEN {<<<<R(1), R(2)>>, <<R(0), R(-1)>>>>}
                  ELSE {<<<<R(1), R(2)>>, <<R(0), R(-1)>>>>, <<<<R(0), R(-1)>>, <<R(1), R(0)>>>>})
 MC_LeafSet == IF Cplx THEN {"id", "scale", "mat", "mulvec", "zero", "inner", "sq", "const", "shift", "l2sq", "smul", "swap"}
-              ELSE {"id", "scale", "mat", "mulvec", "zero", "inner", "sq", "const", "shift", "l2sq", "l1", "smul", "swap"}
+              ELSE {"id", "scale", "mat", "mulvec", "zero", "inner", "sq", "const", "shift", "l2sq", "l1", "smul", "swap", "rpart", "linfn"}
 MC_UnSet == {"neg", "lscal", "rscal", "rdiv", "addscal", "lvec", "flvm", "rvec", "addvec", "raddvec", "rsubvec", "subvec", "pow"}
 MC_BinSet == {"sum", "sub", "comp"}
 MC_MaxSteps == IF Size = "l" THEN 7 ELSE IF Size = "m" THEN 4 ELSE 3
